@@ -72,3 +72,13 @@ package metrics
 //@   ensures delta != 0 && old(c.timeSeries) && (old(c.op) + 1) % 1000 != 0 ==> forall(i, 0, old(len(c.history)), c.history[i] == old(c.history[i]) && *c.history[i].Delta == old(*c.history[i].Delta))
 //@   ensures delta != 0 && old(c.timeSeries) && (old(c.op) + 1) % 1000 != 0 ==> c.history[len(c.history) - 1] != nil && c.history[len(c.history) - 1].Delta != nil && *c.history[len(c.history) - 1].Delta == delta
 //@   ensures delta == 0 ==> len(c.history) == old(len(c.history)) && forall(i, 0, len(c.history), c.history[i] == old(c.history[i]) && *c.history[i].Delta == old(*c.history[i].Delta))
+
+//@ // One counter per name (C19): a session's traffic is counted on the counter every other
+//@ // reader of the registry (quota check, listing, dump) sees. Registration publishes a metric
+//@ // only through the map's atomic LoadOrStore - never with a plain Store, which would let two
+//@ // first registrations of the same user end up on different counters.
+//@ struct nocall RegisterMetric : sync.Map.Store
+//@   property C19
+//@ struct mustcall RegisterMetric : sync.Map.LoadOrStore
+//@   property C19
+
